@@ -94,8 +94,13 @@ def make(cfg):
                 run.impl_step()
                 out.append([H.read(p) for p in run.params])
             results[r] = out
+            if hsdp:
+                from checks.c06 import state_summary
+
+                owners[r] = state_summary(run)
             return True
 
+        owners = [None] * world
         _, errors = sim.run(rank_fn)
         for e in errors:
             if isinstance(e, (symx.PathEnd, symx.Restart, symx.PathViolation, symx.HarnessError)):
@@ -134,6 +139,13 @@ def make(cfg):
                         for off in range(e2 - s):
                             symx.prove_equal(f"shard rank {srank}{' replica ' + str(rep) if hsdp else ''}: element {s + off} of parameter {i} after step {k + 1} equals the serial optimizer on the recovered block",
                                              got[i][off], exp[(i, s + off)], info)
+        if hsdp and not bad:
+            from checks.c06 import prove_state_placement
+
+            gsz = hsdp.get("group", -1)
+            gsz = replicas if gsz == -1 else gsz
+            groups_ = [[(q0 + q) * shard_ranks + t for q in range(gsz)] for t in range(shard_ranks) for q0 in range(0, replicas, gsz)]
+            prove_state_placement(groups_, owners, dict(cfg=cfg, signature=dict(kind="state-placement", hsdp=True)))
         for i, c in enumerate(covered):
             symx.prove(f"every element of parameter {i} is updated exactly once across the shard ranks", bool((c == 1).all()), info)
         return "ok"
